@@ -282,6 +282,8 @@ class _Array:
                 index = int(index)
                 if isinstance(shape[i], int) and index >= shape[i]:
                     raise _IntermediateError('Index of dimension {} with length {} out of range.'.format(dims[i], shape[i]))
+                if isinstance(shape[i], _Length) and not any(shape[i] in g for g in linked_lengths):
+                    linked_lengths.add(frozenset([shape[i]]))
                 ast = 'getitem', ast, _(i), _(index)
                 indices = indices[:i] + indices[i+1:]
                 shape = shape[:i] + shape[i+1:]
@@ -875,7 +877,7 @@ class _ExpressionParser:
                 if not omitted_indices and self._next.type == 'indices':
                     generates_token = self._consume()
                     generates = generates_token.data
-                    generates_shape = tuple(_Length(pos) for pos, index in enumerate(generates, generates_token.pos) if not '0' <= index <= '9')
+                    generates_shape = tuple(_Length(pos) for pos, index in enumerate(generates, generates_token.pos))
                 else:
                     generates = ''
                     generates_shape = ()
